@@ -17,9 +17,10 @@ RULE = (
     "shape and dtype (up to byte order); every attribute is bool/int/float/str or nested "
     "list/tuple of those; repr(tree), _repr_html_() and nbytes of each node do not raise; for "
     "selections sel.shape == sel.values.shape. Non-trivial: level 1.1 or >=1 blank header field."
-    " Half of the products carry free-text summary entries that are left empty."
+    " Half of the products carry free-text summary entries that are left empty. Opens served from the cache are also given their request size as a byte budget text ('auto', '1kB', '64MiB', '100 B'), which the array class understands on that path (an open that rejects the text is not judged)."
 )
 ASSUMPTIONS = ["NumPy scalar attribute values are accepted as plain scalars"]
+NOTES = __import__("collections").Counter()
 BUDGET = {"quick": 120, "thorough": 1500}
 JOBS = {"quick": 4, "thorough": 16}
 
@@ -43,6 +44,9 @@ def cases(draw):
     # free-text summary entries left empty (the typed ones - ints, floats, ids - must be filled)
     case["summary_blank"] = draw(st.one_of(st.none(), st.integers(0, 10**6)))
     case["via_cache"] = draw(st.sampled_from([False, False, True]))
+    # the open served from the cache may be given its request size as a byte budget (a text the
+    # array class understands on that path); an open that rejects the text is not judged
+    case["rpc_text"] = draw(st.sampled_from([None, None, "auto", "1kB", "64MiB", "100 B"]))
     # flag / code columns that are usually constant over a file change from line to line
     if draw(st.integers(0, 3)) == 0:
         for im in case["images"]:
@@ -66,6 +70,8 @@ def classify(case):
         labels.append("empty-summary-values")
     if case.get("via_cache"):
         labels.append("via-cache")
+        if case.get("rpc_text"):
+            labels.append("via-cache:text-request-size")
     if any(im.get("vary_constants") for im in case["images"]):
         labels.append("varying-flag-columns")
     return case["level"] == "1.1" or blank, labels
@@ -149,7 +155,10 @@ def run_case(case):
         if via_cache:
             # the tree assembled from index caches (written by a first open) is held to the same predicate
             creating, err = harness.guard(harness.open_tree, prod.url, records_per_chunk=1024, use_cache=False, create_cache=True)
-            tree, err2 = harness.guard(harness.open_tree, prod.url, records_per_chunk=case["rpc"], use_cache=True)
+            tree, err2 = harness.guard(harness.open_tree, prod.url, records_per_chunk=case.get("rpc_text") or case["rpc"], use_cache=True)
+            if err is None and err2 is not None and case.get("rpc_text") and isinstance(err2, (TypeError, ValueError)):
+                NOTES["out-of-domain:text-request-size-rejected"] += 1
+                tree, err2 = harness.guard(harness.open_tree, prod.url, records_per_chunk=case["rpc"], use_cache=True)
             err = err or err2
         else:
             tree, err = harness.guard(harness.open_tree, prod.url, records_per_chunk=case["rpc"], use_cache=False)
